@@ -28,10 +28,18 @@ func H14r() {
 	vxEvents(true)
 	var wg sync.WaitGroup
 	wg.Add(4)
+	add := func() { c.AddValue("three", "sphinx of black quartz judge my vow"); wg.Done() }
+	// the recorded run fixes the control flow, so record both orders of registration and matching
+	addFirst := vxChoice(2) == 1
+	if addFirst {
+		go add()
+	}
 	go func() { c.MultipleMatch("see " + vxVal1 + " here"); wg.Done() }()
-	go func() { c.MultipleMatch("and " + vxVal2 + " there"); wg.Done() }()
+	go func() { c.MultipleMatch("and " + vxVal2 + " there, sphinx of black quartz judge my vow"); wg.Done() }()
 	go func() { c.NearestMatch(vxVal1); wg.Done() }()
-	go func() { c.AddValue("three", "sphinx of black quartz judge my vow"); wg.Done() }()
+	if !addFirst {
+		go add()
+	}
 	wg.Wait()
 	vxEvents(false)
 	vxAssert("race-free", vxRaceFree())
